@@ -56,7 +56,7 @@ template<typename K>
 struct MappedSubj {
     using Index = pgm::MappedPGMIndex<K, 4, 4>;
     std::unique_ptr<Index> obj;
-    std::vector<K> keys, pool;
+    std::vector<K> keys, pool, hot;
     static constexpr unsigned kinds = 4;
     int fd_base = -1;
     bool reopen = false;
@@ -67,12 +67,23 @@ struct MappedSubj {
         o.size_hint = std::min(size_hint, 70u);
         o.allow_threads = false;
         o.dup_heavy = true;
-        o.max_n = 20000;
+        o.max_n = 60000;
         keys = gen_keys<K>(t, o, meta);
         reopen = t.chance(1, 2);
         desc = std::string("MappedPGMIndex<") + type_name<K>() + ",4,4> " + (reopen ? "(reopened from its file) " : "(range-built) ") + describe_keys(keys, meta);
         if (!execute) return true;
         pool = gen_queries<K>(keys, meta, 4, false, false);
+        { // "hot" keys: the (up to 8) keys with the longest runs; every other query goes to one of them
+            std::vector<std::pair<size_t, K>> runs;
+            for (size_t i = 0; i < keys.size();) {
+                size_t j = i;
+                while (j < keys.size() && keys[j] == keys[i]) ++j;
+                runs.emplace_back(j - i, keys[i]);
+                i = j;
+            }
+            std::sort(runs.begin(), runs.end(), [](auto &a, auto &b) { return a.first > b.first; });
+            for (size_t i = 0; i < runs.size() && i < 8; ++i) hot.push_back(runs[i].second);
+        }
         fd_base = open("/dev/null", O_RDONLY);
         if (fd_base >= 0) close(fd_base);
         obj.reset(new Index(keys.begin(), keys.end(), ctx.workdir + "/conc.pgm"));
@@ -89,7 +100,7 @@ struct MappedSubj {
     }
     size_t pool_size() const { return pool.size(); }
     uint64_t answer(const Q &q) const {
-        const K &k = pool[q.a % pool.size()];
+        const K &k = (q.b & 1) && !hot.empty() ? hot[(q.b >> 1) % hot.size()] : pool[q.a % pool.size()];
         switch (q.kind % kinds) {
             case 0: return mix(1, size_t(obj->lower_bound(k) - obj->begin()));
             case 1: return mix(2, size_t(obj->upper_bound(k) - obj->begin()));
